@@ -79,7 +79,10 @@ func NewWorld() *World {
 }
 
 // Install makes w the current world.
-func Install(w *World) { W = w }
+func Install(w *World) {
+	W = w
+	heldW, heldR = map[interface{}]int{}, map[interface{}]int{}
+}
 
 // Uninstall returns to pass-through mode.
 func Uninstall() { W = nil }
